@@ -497,7 +497,7 @@ func runC14(c *Ctx) {
 		})
 		c.Check("C14-R5", f.Key()+" inspects the last 4 bytes within bounds", c.Pos(f.Decl), okLoop, "loop must be i = 1 … min(4, len(token))")
 	}
-	c.Rule("C14-R7", "stop helpers: FindStop reports a stop iff strings.Contains(sequence, stop) for some stop; ContainsStopSuffix tries every non-empty prefix stop[:i], i = 1 … len(stop), of every stop with strings.HasSuffix (a single-candidate scan misses a prefix that starts later in the tail)")
+	c.Rule("C14-R7", "stop helpers: FindStop examines every stop (no return or break inside the loop over the stops), locates each with strings.Index(sequence, stop) and keeps the one with the smallest index — the output has to end before the first stop sequence in the text, whatever its place in the request's list (returning the first stop of the list that occurs anywhere cuts at a later one and streams the earlier one); ContainsStopSuffix tries every non-empty prefix stop[:i], i = 1 … len(stop), of every stop with strings.HasSuffix (a single-candidate scan misses a prefix that starts later in the tail)")
 	if f := c.Fn("C14-R7", commonPkg, "ContainsStopSuffix"); f != nil {
 		info := f.Info()
 		ok := false
@@ -573,29 +573,8 @@ func runC14(c *Ctx) {
 		}
 	}
 	if f := c.Fn("C14-R7", commonPkg, "FindStop"); f != nil {
-		info := f.Info()
-		g := c.G(f)
-		ok := false
-		for _, ex := range g.Returns() {
-			if core.ExprString(ex.Return.Results[0]) != "true" {
-				continue
-			}
-			for _, a := range g.AtomsAt(ex.Loc) {
-				if call, isC := ast.Unparen(a.Expr).(*ast.CallExpr); isC && a.Val && core.CalleeName(info, call) == "strings.Contains" && core.UsesObj(info, call.Args[0], paramAt(f, 0)) {
-					// returns the stop it tested
-					if core.ExprString(call.Args[1]) == core.ExprString(ex.Return.Results[1]) {
-						ok = true
-					}
-				}
-			}
-		}
-		over := false
-		for _, rl := range rangeLoops(f) {
-			if rl.Over == paramAt(f, 1) {
-				over = true
-			}
-		}
-		c.Check("C14-R7", f.Key()+" = exists stop: Contains(sequence, stop)", c.Pos(f.Decl), ok && over, "FindStop must return (true, stop) exactly on strings.Contains(sequence, stop) while ranging over all stops")
+		ok, why := findStopEarliest(c, f)
+		c.Check("C14-R7", f.Key()+" = the stop that occurs first in the text", c.Pos(f.Decl), ok, why)
 	}
 	if f := c.Fn("C14-R7", commonPkg, "TruncateStop"); f != nil {
 		info := f.Info()
@@ -679,4 +658,115 @@ func isLimitTest(e ast.Expr) bool {
 	}
 	_, y, op, okO := core.Orient(be, func(x ast.Expr) bool { return selName(x) == "numPredicted" })
 	return okO && op == token.GEQ && selName(y) == "numPredict"
+}
+
+// findStopEarliest: FindStop(sequence, stops) returns the stop with the smallest strings.Index in sequence.
+func findStopEarliest(c *Ctx, f *core.Func) (bool, string) {
+	info := f.Info()
+	g := c.G(f)
+	seq, stops := paramAt(f, 0), paramAt(f, 1)
+	for _, rl := range rangeLoops(f) {
+		if rl.Over != stops || rl.Stmt.Value == nil {
+			continue
+		}
+		vid, isV := rl.Stmt.Value.(*ast.Ident)
+		if !isV {
+			continue
+		}
+		v := info.Defs[vid]
+		// every stop is examined
+		early := ""
+		ast.Inspect(rl.Stmt.Body, func(n ast.Node) bool {
+			switch x := n.(type) {
+			case *ast.FuncLit:
+				return false
+			case *ast.ReturnStmt:
+				early = "return inside the loop over the stops at " + c.Pos(x)
+			case *ast.BranchStmt:
+				if x.Tok == token.BREAK || x.Tok == token.GOTO {
+					early = "the loop over the stops is left early at " + c.Pos(x)
+				}
+			}
+			return true
+		})
+		if early != "" {
+			return false, early + ": a stop later in the list that occurs earlier in the text is not seen"
+		}
+		// located with strings.Index(sequence, stop)
+		for _, h := range g.FindCalls("strings.Index") {
+			call := h.Node.(*ast.CallExpr)
+			if !within(rl.Stmt.Body, call) || !isIdentOf(info, call.Args[0], seq) || !isIdentOf(info, call.Args[1], v) {
+				continue
+			}
+			iv := core.ResultVar(info, h.Top, call, 0)
+			if iv == nil {
+				continue
+			}
+			// a block that records (stop, index) under index >= 0 and index < best
+			for _, as := range g.Find(func(n ast.Node) bool {
+				a, isA := n.(*ast.AssignStmt)
+				return isA && within(rl.Stmt.Body, a) && len(a.Lhs) == len(a.Rhs)
+			}) {
+				a := as.Node.(*ast.AssignStmt)
+				var best, chosen types.Object
+				for i := range a.Lhs {
+					if isIdentOf(info, a.Rhs[i], iv) {
+						if id, isId := a.Lhs[i].(*ast.Ident); isId {
+							best = info.ObjectOf(id)
+						}
+					}
+					if isIdentOf(info, a.Rhs[i], v) {
+						if id, isId := a.Lhs[i].(*ast.Ident); isId {
+							chosen = info.ObjectOf(id)
+						}
+					}
+				}
+				if best == nil || chosen == nil {
+					continue
+				}
+				// the guard: mentions index >= 0 (true) and compares the index with the best so far
+				nonNeg, smaller := false, false
+				var cond ast.Expr
+				ast.Inspect(rl.Stmt.Body, func(n ast.Node) bool {
+					if ifs, isIf := n.(*ast.IfStmt); isIf && within(ifs.Body, a) {
+						cond = ifs.Cond
+					}
+					return true
+				})
+				if cond == nil {
+					continue
+				}
+				ast.Inspect(cond, func(n ast.Node) bool {
+					be, isB := n.(*ast.BinaryExpr)
+					if !isB {
+						return true
+					}
+					if x, y, op, okO := core.Orient(be, func(e ast.Expr) bool { return isIdentOf(info, e, iv) }); okO {
+						_ = x
+						if cv, isC := core.ConstInt(info, y); isC && ((op == token.GEQ && cv == 0) || (op == token.GTR && cv == -1) || (op == token.NEQ && cv == -1)) {
+							nonNeg = true
+						}
+						if isIdentOf(info, y, best) && (op == token.LSS || op == token.LEQ) {
+							smaller = true
+						}
+					}
+					return true
+				})
+				if !nonNeg || !smaller {
+					continue
+				}
+				// the recorded stop is what every return hands back
+				okRet := true
+				for _, ex := range g.Returns() {
+					if ex.Return == nil || len(ex.Return.Results) != 2 || !isIdentOf(info, ex.Return.Results[1], chosen) {
+						okRet = false
+					}
+				}
+				if okRet {
+					return true, ""
+				}
+			}
+		}
+	}
+	return false, "FindStop must range over all stops, locate each with strings.Index(sequence, stop) and return the one with the smallest index (recorded under `i >= 0 && (… || i < best)`)"
 }
